@@ -23,7 +23,7 @@ import (
 func init() {
 	core.Register(&core.Prop{
 		ID: "C16",
-		Rule: "case = one shapefile of 0-60 (300 thorough) records of one geometry kind (Point, MultiPoint, LineString, MultiLineString of 1-6 parts, Polygon of 1-5 closed or unclosed rings, *Bounds, nil geometry) with 1-6 attribute columns (int within ten characters, float whose %.10f fits 30 characters, NUL-free string of 0-50 bytes: ASCII, UTF-8, internal blanks, tabs; leading/trailing blanks as their own category) in random column order, written through NewEncoder/Encode with a reflect-built archetype struct (shp tags and bare mixed-case names; 15% of schemas with >= 2 columns have a crossed pair: each field tagged with the other's lower-cased name and the same struct read back, so the tag must win over the name) or NewEncoderFromFields/EncodeFields, and read back through DecodeRow (struct with differently-cased names/tags, the geometry field at a random position; 35% of the files alternate row by row between two record types with different field order through one Decoder) or DecodeRowFields; oracle = the list of records written; " +
+		Rule: "case = one shapefile of 0-60 (300 thorough) records of one geometry kind (Point, MultiPoint, LineString, MultiLineString of 1-6 parts, Polygon of 1-5 closed, unclosed or unclosed-by-a-hair rings (last vertex one ulp .. 1e-10 relative from the first), *Bounds, nil geometry) with 1-6 attribute columns (int within ten characters, float whose %.10f fits 30 characters, NUL-free string of 0-50 bytes: ASCII, UTF-8, internal blanks, tabs; leading/trailing blanks as their own category) in random column order, written through NewEncoder/Encode with a reflect-built archetype struct (shp tags and bare mixed-case names; 15% of schemas with >= 2 columns have a crossed pair: each field tagged with the other's lower-cased name and the same struct read back, so the tag must win over the name) or NewEncoderFromFields/EncodeFields, and read back through DecodeRow (struct with differently-cased names/tags, the geometry field at a random position; 35% of the files alternate row by row between two record types with different field order through one Decoder) or DecodeRowFields; oracle = the list of records written; " +
 			"an evaluation is one record compared; non-trivial = file with >= 2 records and >= 2 columns; distinct by content hash",
 		Assumptions: []string{"coordinates are finite bit patterns compared bitwise", "documented images: LineString -> one-part MultiLineString, unclosed ring -> closed, *Bounds -> 5-vertex rectangle", "files are written to a per-run scratch directory under /verif/.build and removed"},
 		Phases: []core.Phase{{Name: "files", NumCases: func(t string) int {
@@ -35,7 +35,7 @@ func init() {
 		Run: run,
 		Floors: func(t string) map[string]int64 {
 			return map[string]int64{"api.struct": 100, "api.fields": 100, "kind.Point": 20, "kind.MultiPoint": 20, "kind.LineString": 20, "kind.MultiLineString": 20, "kind.Polygon": 20, "kind.*Bounds": 20,
-				"records.compared": 3000, "string.last_column": 50, "string.with_edge_blanks": 200, "ring.unclosed": 200, "file.empty": 3, "column.string": 100, "column.int": 100, "column.float": 100, "string.at_field_width": 20, "schema.crossed_tags_and_names": 30, "decode.alternating_record_types": 50}
+				"records.compared": 3000, "string.last_column": 50, "string.with_edge_blanks": 200, "ring.unclosed": 200, "ring.unclosed_by_a_hair": 100, "file.empty": 3, "column.string": 100, "column.int": 100, "column.float": 100, "string.at_field_width": 20, "schema.crossed_tags_and_names": 30, "decode.alternating_record_types": 50}
 		},
 	})
 }
@@ -89,9 +89,30 @@ func genGeom(c *core.Ctx, r *gen.R, kind string) geom.Geom {
 		m := make(geom.Polygon, r.IntRange(1, 5))
 		for i := range m {
 			ring := pts(r, r.IntRange(3, 7))
-			if r.Bool() {
+			switch r.Intn(5) {
+			case 0, 1:
 				ring = append(ring, ring[0])
-			} else {
+			case 2:
+				// unclosed by a hair: the last vertex is the first one moved by one ulp to a
+				// relative 1e-10 (a ring that was closed before a re-projection): still unclosed,
+				// so the writer must add the closing vertex
+				f := ring[0]
+				nudge := func(v float64) float64 {
+					if r.Bool() {
+						return math.Nextafter(v, math.Inf(1-2*r.Intn(2)))
+					}
+					return v * (1 + math.Pow(10, r.Range(-15, -10))*float64(1-2*r.Intn(2)))
+				}
+				q := geom.Point{X: nudge(f.X), Y: f.Y}
+				if r.Bool() {
+					q = geom.Point{X: nudge(f.X), Y: nudge(f.Y)}
+				}
+				if q != f {
+					ring = append(ring, q)
+					c.Count("ring.unclosed_by_a_hair")
+				}
+				c.Count("ring.unclosed")
+			default:
 				c.Count("ring.unclosed")
 			}
 			m[i] = ring
